@@ -40,6 +40,7 @@ type Op struct {
 	Reps    int    `json:"reps,omitempty"`
 	RO      bool   `json:"ro"`            // lib: read-only library calls only (no Merge into the message)
 	Off     int    `json:"off,omitempty"` // alias_in: offset of the input inside its backing array
+	Limit   int    `json:"limit"`         // unmarshal: proto.UnmarshalOptions.RecursionLimit (0 = default)
 }
 
 // Event is an executed Op with what was observed on the pulsar message and on the dynamicpb twin.
@@ -118,6 +119,7 @@ type codecRunner struct {
 	out  *bufio.Writer
 	n    int
 	caseN int
+	nilPlanted bool // Go-level nil messages were planted into the current message (plantnil)
 }
 
 func (r *codecRunner) project(e *Event) {
@@ -184,6 +186,7 @@ func (r *codecRunner) run(op Op) {
 	switch op.Op {
 	case "load":
 		r.caseN++
+		r.nilPlanted = false
 		r.mt = findType(op.T)
 		r.md = r.mt.Descriptor()
 		r.p = newPulsar(r.mt)
@@ -425,6 +428,7 @@ func (r *codecRunner) run(op Op) {
 		// reads as an empty one), so every later event is validated against the same state.
 		planted := 0
 		e.Panic = catch(func() { planted = plantNil(reflect.ValueOf(r.p)) })
+		r.nilPlanted = planted > 0
 		e.N = planted
 		e.Ok, e.RefOk = e.Panic == "", true
 		r.project(e)
@@ -524,6 +528,11 @@ func (r *codecRunner) run(op Op) {
 				"Project": func() { proj.Project(m.ProtoReflect(), proj.WrapNone) },
 			}
 			for name, f := range calls {
+				if vi == 0 && r.nilPlanted {
+					// earlier reads (the projections logged with every event) may already have
+					// "healed" nil elements: plant them again so that each call starts from nil
+					plantNil(reflect.ValueOf(m))
+				}
 				before := snapshot(reflect.ValueOf(m))
 				pn := catch(f)
 				after := snapshot(reflect.ValueOf(m))
@@ -588,7 +597,7 @@ func (r *codecRunner) run(op Op) {
 			e.Panic, e.Ok = "nil: "+pn, false
 		}
 	case "unmarshal":
-		o := proto.UnmarshalOptions{Merge: op.Merge, DiscardUnknown: op.Discard}
+		o := proto.UnmarshalOptions{Merge: op.Merge, DiscardUnknown: op.Discard, RecursionLimit: op.Limit}
 		in := proj.ToBytes(op.In)
 		shadow := append([]byte(nil), in...)
 		var err error
@@ -749,6 +758,14 @@ func randomCodecPlan(g *val.Gen, mt protoreflect.MessageType, mode string, emit 
 		emit(Op{Op: "unmarshal", In: proj.Bytes(x), Discard: true, Tag: "discard"})
 		emit(Op{Op: "marshal", Det: true, Tag: "discard"})
 		emit(Op{Op: "unmarshal", In: proj.Bytes(x), Merge: true, Discard: g.R.Intn(2) == 0, Tag: "discard-merge"})
+		// a caller-set recursion limit that the input fits exactly: every option still applies at
+		// the deepest level
+		if dm := dynamicpb.NewMessage(md); proto.Unmarshal(x, dm) == nil {
+			lim := 1 + msgDepth(dm.ProtoReflect())
+			emit(Op{Op: "unmarshal", In: proj.Bytes(x), Discard: true, Limit: lim, Tag: "discard-at-limit"})
+			emit(Op{Op: "unmarshal", In: proj.Bytes(x), Limit: lim, Tag: "unknown-at-limit"})
+			emit(Op{Op: "marshal", Det: true, Tag: "unknown-at-limit"})
+		}
 		// the stored unknown records are copies: overwriting the input afterwards changes nothing
 		emit(Op{Op: "alias_in", In: proj.Bytes(x), Tag: "unknown-alias"})
 	}
@@ -802,6 +819,30 @@ func cmdCodec(args []string) {
 }
 
 var _ = reflect.TypeOf
+
+// msgDepth is the number of message levels below m (0 for a message without populated message fields).
+func msgDepth(m protoreflect.Message) int {
+	d := 0
+	up := func(x protoreflect.Message) {
+		if n := 1 + msgDepth(x); n > d {
+			d = n
+		}
+	}
+	m.Range(func(fd protoreflect.FieldDescriptor, v protoreflect.Value) bool {
+		switch {
+		case fd.IsMap() && fd.MapValue().Message() != nil:
+			v.Map().Range(func(_ protoreflect.MapKey, mv protoreflect.Value) bool { up(mv.Message()); return true })
+		case fd.IsList() && fd.Message() != nil:
+			for i := 0; i < v.List().Len(); i++ {
+				up(v.List().Get(i).Message())
+			}
+		case fd.Message() != nil && !fd.IsMap() && !fd.IsList():
+			up(v.Message())
+		}
+		return true
+	})
+	return d
+}
 
 // growShrink inserts and then deletes extra keys in every populated map (and nested ones), and
 // appends+truncates every populated list, leaving the value unchanged.
